@@ -1,8 +1,8 @@
 (* C02 - generated modules are closed: every name resolves, none is declared twice.
    Only statements, [exact], examples and [Print Assumptions] live here. *)
 From Coq Require Import String List Bool.
-Require Import TT.Model.Str TT.Spec.TsObs TT.Spec.C02Closed TT.Model.C02Model TT.Model.C02Samples.
-Require Import TT.Proofs.C02Reflect TT.Proofs.C02Proofs TT.Proofs.C02Witness.
+Require Import TT.Model.Str TT.Spec.TsObs TT.Spec.C02Closed TT.Model.C02Model TT.Spec.C02Domain TT.Model.C02Samples.
+Require Import TT.Proofs.C02Reflect TT.Proofs.C02Proofs TT.Proofs.C02World TT.Proofs.C02Witness.
 Import ListNotations.
 
 (* The run-time oracle decides the Prop-level definition of a closed module graph:
@@ -19,19 +19,43 @@ Proof. exact nodup_b_iff. Qed.
 Theorem C02_dups_nil_iff_NoDup : forall l, dups l = [] <-> NoDup l.
 Proof. exact dups_nil_NoDup. Qed.
 
-(* The model-level theorem, both modes: for every well-formed project outside every recorded
-   class whose mentioned custom names are all among the declared ones, the generated module
-   graph is closed and no module declares a name twice. (Partial: see the full statement below.) *)
-Theorem C02_closed_partial : forall p zod,
+(* THE PROPERTY, on the model, both modes. Premises: the project is well formed (wf), its types are
+   of the documented type language (dom: unqualified container heads with their arities, names
+   without special characters, type names with an upper-case initial), every named type used is a
+   serde struct/enum of the project or covered by a type mapping (closed_world = the premise of the
+   property text), and the project lies outside the recorded defect classes. Then every reference
+   of every generated module resolves, index.ts re-exports exactly the files written, and no module
+   declares an exported name twice. *)
+Theorem C02_closed : forall p zod,
+  wf p = true -> dom p = true -> closed_world p = true -> kf_C02 p zod = false ->
+  closed (gen p zod) /\ exports_nodup (gen p zod).
+Proof. exact C02_closed_world. Qed.
+
+Theorem C02_closed_zod : forall p,
+  wf p = true -> dom p = true -> closed_world p = true -> kf_C02 p true = false ->
+  closed (gen p true) /\ exports_nodup (gen p true).
+Proof. intros p. exact (C02_closed_world p true). Qed.
+
+Theorem C02_closed_plain : forall p,
+  wf p = true -> dom p = true -> closed_world p = true -> kf_C02 p false = false ->
+  closed (gen p false) /\ exports_nodup (gen p false).
+Proof. intros p. exact (C02_closed_world p false). Qed.
+
+(* the step that was missing: in the closed world, every custom name a declaration, a schema or a
+   prefixed site mentions is among the declared types (harvester, parser and the two closures agree) *)
+Theorem C02_closed_world_declares : forall p,
+  wf p = true -> dom p = true -> closed_world p = true -> kf_event_head p = false -> refs_declared p = true.
+Proof. exact world_refs_declared. Qed.
+
+(* the same conclusion from the decidable side condition alone (no type-language premise) *)
+Theorem C02_closed_if_declared : forall p zod,
   wf p = true -> refs_declared p = true -> kf_C02 p zod = false ->
   closed (gen p zod) /\ exports_nodup (gen p zod).
 Proof. exact C02_model_closed. Qed.
 
-(* the same for plain mode, as asked for at minimum *)
-Theorem C02_closed_plain_partial : forall p,
-  wf p = true -> refs_declared p = true -> kf_C02 p false = false ->
-  closed (gen p false) /\ exports_nodup (gen p false).
-Proof. intros p. exact (C02_model_closed p false). Qed.
+(* the index.ts clause holds of every project, in every mode, unconditionally *)
+Theorem C02_index_exact : forall p zod, index_exact (gen p zod) (index_sum p).
+Proof. exact index_ok. Qed.
 
 (* plain-mode types.ts: distinct Params names that are not names of declared types suffice *)
 Theorem C02_types_exports_nodup_plain : forall p,
@@ -43,7 +67,7 @@ Proof. exact types_exports_nodup_plain. Qed.
 (* The property as stated (premise: closed world) is still false of the faithful model
    (add_types_prefix on a map-typed return) *)
 Theorem C02_refuted : exists p zod,
-  wf p = true /\ closed_world p = true /\ ~ (closed (gen p zod) /\ exports_nodup (gen p zod)).
+  wf p = true /\ dom p = true /\ closed_world p = true /\ ~ (closed (gen p zod) /\ exports_nodup (gen p zod)).
 Proof. exact closed_world_refuted. Qed.
 
 (* one computed witness per recorded class: in the class, premises met, oracle false on the model *)
@@ -71,29 +95,26 @@ Proof.
   split; [apply w_event_nested_repaired|]. split; [apply w_same_event_twice_repaired|]. split; [apply w_ipc_channel_ok|].
   exact w_batch3_repaired. Qed.
 
-(* Not asserted: the step from the premise of the property text to the side condition
-   refs_declared (harvest/parse agreement lifted to projects, closure of resolve_types_lazily and
-   collect_used_types). Checked on every generated case at run time. *)
-Definition C02_closed_world_full_statement : Prop := forall p zod,
-  wf p = true -> closed_world p = true -> kf_C02 p zod = false ->
-  closed (gen p zod) /\ exports_nodup (gen p zod).
-
 (* non-vacuity: a project with structs, an enum, nesting, a channel, an event and a type mapping
    meets the premises of the partial theorem in both modes, and the premise of the property *)
 Example C02_ex_premises :
-  wf w_ok = true /\ closed_world w_ok = true /\ refs_declared w_ok = true /\
+  wf w_ok = true /\ dom w_ok = true /\ closed_world w_ok = true /\ refs_declared w_ok = true /\
   kf_C02 w_ok false = false /\ kf_C02 w_ok true = false.
-Proof. destruct w_ok_premises as [A [B [C [D [E _]]]]]. repeat split; assumption. Qed.
+Proof. vm_compute. repeat split; reflexivity. Qed.
 Example C02_ex_closed : closed (gen w_ok true) /\ exports_nodup (gen w_ok true).
-Proof. destruct w_ok_premises as [A [_ [C [_ [E _]]]]]. exact (C02_closed_partial w_ok true A C E). Qed.
+Proof. destruct C02_ex_premises as [A [B [C [_ [_ E]]]]]. exact (C02_closed w_ok true A B C E). Qed.
 Example C02_ex_oracle : c02_ok (gen w_ok false) = true /\ c02_ok (gen w_prefix false) = false.
 Proof. split; vm_compute; reflexivity. Qed.
 
 Print Assumptions C02_oracle_closed_iff.
 Print Assumptions C02_oracle_nodup_iff.
 Print Assumptions C02_dups_nil_iff_NoDup.
-Print Assumptions C02_closed_partial.
-Print Assumptions C02_closed_plain_partial.
+Print Assumptions C02_closed.
+Print Assumptions C02_closed_zod.
+Print Assumptions C02_closed_plain.
+Print Assumptions C02_closed_world_declares.
+Print Assumptions C02_closed_if_declared.
+Print Assumptions C02_index_exact.
 Print Assumptions C02_types_exports_nodup_plain.
 Print Assumptions C02_refuted.
 Print Assumptions C02_class_witnesses.
